@@ -700,6 +700,15 @@ func HModel() {
 		vAssert(got[i] == want[i], "c02-catalog-entity-differs-from-model")
 	}
 	vCheckClosure(c)
+	if vParam("repeat", 0) == 1 {
+		// C16: a second serialisation hands over what the first one did
+		e1 := vEmit(c)
+		e2 := vEmit(c)
+		vAssert(len(e1) == len(e2), "c16-second-serialisation-differs")
+		for i := range e1 {
+			vAssert(e1[i] == e2[i], "c16-second-serialisation-differs")
+		}
+	}
 	vReach("model-roundtrip")
 	vObserve("ok", len(got))
 }
